@@ -514,7 +514,8 @@ pub fn random_spec(rng: &mut Rng, ver: (u8, u8, u8), size: usize) -> Spec {
 		_ => rng.range(1, size.max(1)),
 	};
 	let absence = *rng.pick(&[0usize, 0, 1, 3, 5, 9]);
-	let frames = if nchars == 0 && !gte(v, (2, 2)) { vec![] } else { { let rb = rng.chance(1, 2); let mi = *rng.pick(&[0usize, 2, 15, 16, 40]); gen_frames(rng, v, nchars, n, rb, absence, mi) } };
+	let frames = if nchars == 0 && !gte(v, (2, 2)) { vec![] } else { { let rb = rng.chance(1, 2); // item counts: none, few, the in-game cap (15), just above it, many, and - rarely - more than a byte can count
+		let mi = if rng.chance(1, 60) { 300 } else { *rng.pick(&[0usize, 2, 15, 16, 40]) }; gen_frames(rng, v, nchars, n, rb, absence, mi) } };
 	let gecko_blocks = if gte(v, (3, 3)) { *rng.pick(&[0usize, 0, 1, 1, 2, 3, 7]) } else { 0 };
 	// tail 0 = the list fills its last 512-byte block exactly
 	let gecko_tail = if gecko_blocks > 0 && !rng.chance(1, 5) { rng.below(512) } else { 0 };
